@@ -41,14 +41,19 @@
                   crashes on the first body bytes), otherwise never          *)
 EXTENDS HttpFramingOps, Naturals, FiniteSets, TLC
 
-CONSTANTS Side,      \* "server": requests are parsed; "client": responses are parsed
-          Pool,      \* grammar indices the peer may send
-          MaxMsgs,   \* messages on the connection
-          MaxCuts,   \* reads that end before the end of their message, over the connection (NoBound: any number)
-          Mode,      \* where a read may end: "all" | "pm2" | "pm1" | "bnd" (structural boundaries +-2, +-1, +-0) | "bytes" (k = 1)
-          Defects,   \* subset of {"linecrlf", "lastchunk", "nobody", "untilclose", "emptyhdr"}
-          KeepOut    \* BOOLEAN: keep every emitted line in `out` (small configurations only)
+CONSTANTS Sides,     \* subset of {"server", "client"}: requests / responses are parsed
+          Plans,     \* set of enumeration plans (records, see below); a behaviour follows one of them
+          Defects    \* subset of {"linecrlf", "lastchunk", "nobody", "untilclose", "emptyhdr"}
 
+(* A plan bounds what the environment does on one connection:
+     [name, pool, maxmsgs, maxcuts, mode, keep]
+   pool     "Everything" | "Selected" | "Few" | "Two": the layouts the peer may send
+   maxmsgs  messages on the connection
+   maxcuts  reads that end before the end of their message, over the
+            connection (NoBound: any number)
+   mode     where such a read may end: "all" offsets | structural boundaries
+            "pm2" (+-2) | "pm1" (+-1) | "bnd" (+-0) | "bytes" (every read is one byte)
+   keep     keep every emitted line in `out` (small plans only)               *)
 NoBound == -1
 NoDefects == {}
 AllDefects == {"linecrlf", "lastchunk", "nobody", "untilclose", "emptyhdr"}
@@ -111,38 +116,65 @@ ValidResp(L) == /\ (L.li \in {3, 4}) <=> (L.bi = 1)
                 /\ (L.body = "chunked") => (L.vi = 2)
 RespGrammar == SelectSeq(RespAll, ValidResp)
 
-G == IF Side = "server" THEN ReqGrammar ELSE RespGrammar
-Everything == 1..Len(G)
+AllSides == {"server", "client"}
+GG == [s \in AllSides |-> IF s = "server" THEN ReqGrammar ELSE RespGrammar]
+ASSUME PrintT(<<"GRAMMAR", GG>>)       \* the harness reads the grammar from here
 
 (* the layouts whose every cut sequence is replayed on the real code: every
    body (both versions) with the other dimensions rotating, every first line
    x header block without body, the HTTP/1.0 specials                        *)
-SelReq(L) == \/ (L.li = (L.bi % 4) + 1 /\ L.hi = 2 + (L.bi % 3))
-             \/ (L.bi = 1 /\ L.vi = 2)
-             \/ (L.vi = 1 /\ L.hi \in {1, 5} /\ L.li \in {1, 3} /\ L.bi \in {1, 3})
-SelResp(L) == \/ (L.li = 1 /\ L.hi = 1 + (L.bi % 4) /\ (L.vi = 2 \/ L.body = "close"))
-              \/ (L.bi = 3 /\ L.vi = 2 /\ L.li \in {1, 2})
-              \/ (L.li \in {3, 4} /\ L.hi \in {1, 2, 4} /\ (L.vi = 2 \/ L.hi = 2))
-              \/ (L.hi = 1 /\ L.bi \in {8, 9} /\ L.li = 2)
-Selected == {i \in Everything : IF Side = "server" THEN SelReq(G[i]) ELSE SelResp(G[i])}
-(* a handful for the sequences *)
-FewReq(L) == \/ (L.vi = 2 /\ L.li = 1 /\ L.hi = 2 /\ L.bi \in {1, 3, 5})       \* GET none / cl5 / ch32x
-             \/ (L.vi = 2 /\ L.li = 4 /\ L.hi = 4 /\ L.bi = 7)                   \* long, continuation, ch32xt
-             \/ (L.vi = 1 /\ L.li = 3 /\ L.hi = 5 /\ L.bi \in {1, 2})            \* 1.0 keep-alive none / cl0
-FewResp(L) == \/ (L.vi = 2 /\ L.li = 1 /\ L.hi = 2 /\ L.bi \in {2, 3, 5, 8})    \* 200 cl0 / cl5 / ch32x / close5
-              \/ (L.vi = 2 /\ L.li = 3 /\ L.hi \in {1, 2})                       \* 204 without / with header fields
-              \/ (L.vi = 2 /\ L.li = 2 /\ L.hi = 4 /\ L.bi = 7)                  \* 404 continuation ch32xt
-Few == {i \in Everything : IF Side = "server" THEN FewReq(G[i]) ELSE FewResp(G[i])}
-TwoReq(L) == L.vi = 2 /\ L.li = 1 /\ L.hi = 2 /\ L.bi \in {3, 6}
-TwoResp(L) == L.vi = 2 /\ L.li = 1 /\ L.hi = 2 /\ L.bi \in {3, 6}
-Two == {i \in Everything : IF Side = "server" THEN TwoReq(G[i]) ELSE TwoResp(G[i])}
+SelReq(l) == \/ (l.li = (l.bi % 4) + 1 /\ l.hi = 2 + (l.bi % 3))
+             \/ (l.bi = 1 /\ l.vi = 2)
+             \/ (l.vi = 1 /\ l.hi \in {1, 5} /\ l.li \in {1, 3} /\ l.bi \in {1, 3})
+SelResp(l) == \/ (l.li = 1 /\ l.hi = 1 + (l.bi % 4) /\ (l.vi = 2 \/ l.body = "close"))
+              \/ (l.bi = 3 /\ l.vi = 2 /\ l.li \in {1, 2})
+              \/ (l.li \in {3, 4} /\ l.hi \in {1, 2, 4} /\ (l.vi = 2 \/ l.hi = 2))
+              \/ (l.hi = 1 /\ l.bi \in {8, 9} /\ l.li = 2)
+(* a handful for the sequences and the deeper cut enumerations *)
+FewReq(l) == \/ (l.vi = 2 /\ l.li = 1 /\ l.hi = 2 /\ l.bi \in {1, 3, 5})       \* GET none / cl5 / ch32x
+             \/ (l.vi = 2 /\ l.li = 4 /\ l.hi = 4 /\ l.bi = 7)                   \* long, continuation, ch32xt
+             \/ (l.vi = 1 /\ l.li = 3 /\ l.hi = 5 /\ l.bi \in {1, 2})            \* 1.0 keep-alive none / cl0
+FewResp(l) == \/ (l.vi = 2 /\ l.li = 1 /\ l.hi = 2 /\ l.bi \in {2, 3, 5, 8})    \* 200 cl0 / cl5 / ch32x / close5
+              \/ (l.vi = 2 /\ l.li = 3 /\ l.hi \in {1, 2})                       \* 204 without / with header fields
+              \/ (l.vi = 2 /\ l.li = 2 /\ l.hi = 4 /\ l.bi = 7)                  \* 404 continuation ch32xt
+TwoOf(l) == l.vi = 2 /\ l.li = 1 /\ l.hi = 2 /\ l.bi \in {3, 6}                 \* cl5 / ch3t
+InPool(name, s, l) ==
+  CASE name = "Everything" -> TRUE
+    [] name = "Selected" -> IF s = "server" THEN SelReq(l) ELSE SelResp(l)
+    [] name = "Few" -> IF s = "server" THEN FewReq(l) ELSE FewResp(l)
+    [] name = "Two" -> TwoOf(l)
+PoolNames == {"Everything", "Selected", "Few", "Two"}
+PoolTab == [n \in PoolNames |-> [s \in AllSides |-> {i \in 1..Len(GG[s]) : InPool(n, s, GG[s][i])}]]
+
+Plan(name, pool, maxmsgs, maxcuts, mode, keep) ==
+  [name |-> name, pool |-> pool, maxmsgs |-> maxmsgs, maxcuts |-> maxcuts, mode |-> mode, keep |-> keep]
+(* exhaustive checking of the intended algorithm (with VIEW) *)
+PlansMC == {Plan("bnd", "Selected", 1, NoBound, "bnd", FALSE), Plan("all", "Two", 1, NoBound, "all", FALSE),
+            Plan("seq", "Two", 2, NoBound, "bnd", FALSE)}
+PlansMCThorough == {Plan("all", "Selected", 1, NoBound, "all", FALSE),
+                    Plan("grammar", "Everything", 1, NoBound, "bnd", FALSE),
+                    Plan("seq", "Few", 3, NoBound, "bnd", FALSE)}
+PlansPinned == {Plan("all", "Selected", 1, NoBound, "all", FALSE)}
+(* histories replayed on the real code (no VIEW: every state is a history) *)
+PlansHist == {Plan("single", "Selected", 1, 1, "all", TRUE),
+              Plan("bytes", "Selected", 1, NoBound, "bytes", FALSE),
+              Plan("pair", "Few", 1, 2, "pm1", FALSE),
+              Plan("edge", "Two", 1, 3, "bnd", FALSE),
+              Plan("seq", "Two", 2, 2, "bnd", FALSE)}
+PlansHistThorough == {Plan("single", "Selected", 1, 1, "all", TRUE),
+                      Plan("bytes", "Selected", 1, NoBound, "bytes", FALSE),
+                      Plan("pair", "Selected", 1, 2, "pm2", FALSE),
+                      Plan("edge", "Few", 1, 3, "bnd", FALSE),
+                      Plan("seq", "Few", 3, 2, "bnd", FALSE)}
 
 -----------------------------------------------------------------------------
-VARIABLES msgs,     \* the messages of the connection (grammar indices)
+VARIABLES side,     \* the side under test
+          plan,     \* the plan this behaviour follows
+          msgs,     \* the messages of the connection (grammar indices)
           m,        \* current message
           pos,      \* bytes of message m delivered
           prev,     \* offset of the previous cut (start of the last read)
-          ph,       \* parser phase for message m: "line" | "hdr" | "body" | "done" | "stuck"
+          ph,       \* parser phase for message m: "line" | "hdr" | "body" | "done" | "stuck" | "crash"
           closed,   \* the peer closed the connection (read-until-close)
           emitted,  \* emitted[i]: events produced for message i
           errors,   \* error responses / parser errors so far
@@ -151,15 +183,17 @@ VARIABLES msgs,     \* the messages of the connection (grammar indices)
           P, bad,   \* monitor state, first failed clause
           hist,     \* environment history: <<m, offset at which a read ended>>
           pred,     \* predicted events: <<"emit" | "error", m, pos>>
-          out       \* every line emitted so far (if KeepOut)
+          out       \* every line emitted so far (if plan.keep)
 
-vars == <<msgs, m, pos, prev, ph, closed, emitted, errors, dead, ncuts, P, bad, hist, pred, out>>
+vars == <<side, plan, msgs, m, pos, prev, ph, closed, emitted, errors, dead, ncuts, P, bad, hist, pred, out>>
 
-Cfg == [side |-> Side, msgs |-> [i \in 1..Len(msgs) |-> G[msgs[i]]]]
+G == GG[side]
+Cfg == [side |-> side, msgs |-> [i \in 1..Len(msgs) |-> G[msgs[i]]]]
 Emit(lines) == LET r == Run(Cfg, P, lines, bad)
-               IN P' = r[1] /\ bad' = r[2] /\ out' = IF KeepOut THEN out \o lines ELSE out
+               IN P' = r[1] /\ bad' = r[2] /\ out' = IF plan.keep THEN out \o lines ELSE out
 
-Init == /\ msgs \in UNION {[1..n -> Pool] : n \in 1..MaxMsgs}
+Init == /\ side \in Sides /\ plan \in Plans
+        /\ msgs \in UNION {[1..n -> PoolTab[plan.pool][side]] : n \in 1..plan.maxmsgs}
         /\ \A i \in 1..(Len(msgs) - 1) : G[msgs[i]].ka
         /\ m = 1 /\ pos = 0 /\ prev = 0 /\ ph = "line" /\ closed = FALSE
         /\ emitted = [i \in 1..Len(msgs) |-> 0] /\ errors = 0 /\ dead = FALSE /\ ncuts = 0
@@ -183,24 +217,29 @@ CRs(l) == {l.line} \cup LineCRs(l.hdrs, LineEnd(l)) \cup {HdrEnd(l) - 2}
 Min(S) == CHOOSE x \in S : \A y \in S : x <= y
 
 (* where a read may end before the end of the message *)
-Targets(l) ==
+Targets(mode, l) ==
   LET B == Boundaries(l)
-      W == CASE Mode = "pm2" -> {x + d : x \in B, d \in -2..2}
-             [] Mode = "pm1" -> {x + d : x \in B, d \in -1..1}
-             [] Mode = "bnd" -> B
+      W == CASE mode = "pm2" -> {x + d : x \in B, d \in -2..2}
+             [] mode = "pm1" -> {x + d : x \in B, d \in -1..1}
+             [] mode = "bnd" -> B
              [] OTHER -> 1..Total(l)
   IN {t \in W : t >= 1 /\ t < Total(l)}
 
 (* per-layout tables, computed once (constant level): TLC evaluates the guard
    of Read for every candidate offset of every state                        *)
-GTot == [i \in 1..Len(G) |-> Total(G[i])]
-GHe  == [i \in 1..Len(G) |-> HdrEnd(G[i])]
-GLse == [i \in 1..Len(G) |-> LastSizeEnd(G[i])]
-GCRs == [i \in 1..Len(G) |-> CRs(G[i])]
-GTg  == [i \in 1..Len(G) |-> Targets(G[i])]
+TabTot == [s \in AllSides |-> [i \in 1..Len(GG[s]) |-> Total(GG[s][i])]]
+TabHe  == [s \in AllSides |-> [i \in 1..Len(GG[s]) |-> HdrEnd(GG[s][i])]]
+TabLse == [s \in AllSides |-> [i \in 1..Len(GG[s]) |-> LastSizeEnd(GG[s][i])]]
+TabCRs == [s \in AllSides |-> [i \in 1..Len(GG[s]) |-> CRs(GG[s][i])]]
+UsedModes == {p.mode : p \in Plans}
+TabTg  == [md \in UsedModes |-> [s \in Sides |-> [i \in 1..Len(GG[s]) |-> Targets(md, GG[s][i])]]]
 
-I   == msgs[m]
-Tot == GTot[I]
+GTot == TabTot[side]
+GHe  == TabHe[side]
+GLse == TabLse[side]
+GCRs == TabCRs[side]
+I    == msgs[m]
+Tot  == GTot[I]
 
 (* the first CRLF that lies entirely within the bytes [a, b) of layout i, -1 if none *)
 FirstCRLF(i, a, b) == LET S == {c \in GCRs[i] : c >= a /\ c + 2 <= b} IN IF S = {} THEN -1 ELSE Min(S)
@@ -220,9 +259,7 @@ Exec(i, p, a, b) ==
                       ELSE IF b >= l.line + 2 THEN l.line ELSE -1
          IN IF found = -1 THEN R("line", FALSE, 0)
             ELSE IF found = l.line THEN Exec(i, "hdr", a, b)
-            ELSE IF Side = "client" /\ found = l.line + 2      \* "<status line> CR LF" still matches the status pattern:
-                 THEN R("stuck", FALSE, 0)                       \* the terminator was eaten, the headers never end
-            ELSE R("stuck", FALSE, IF Side = "server" THEN 400 ELSE 1000)
+            ELSE R("stuck", FALSE, IF side = "server" THEN 400 ELSE 0)   \* bad first line: 400 / the client parser gives up silently
     [] p = "hdr" ->
          IF b < GHe[i] THEN R("hdr", FALSE, 0)
          ELSE IF "emptyhdr" \in Defects /\ l.hdrs = <<>> /\ GTot[i] > GHe[i]
@@ -231,28 +268,27 @@ Exec(i, p, a, b) ==
          ELSE Exec(i, "body", a, b)
     [] p = "crash" -> R("stuck", FALSE, 2000)                    \* TypeError on the first body bytes
     [] p = "body" ->
-         IF Side = "client" /\ NoBodyStatus(l)
+         IF side = "client" /\ NoBodyStatus(l)
          THEN IF "nobody" \in Defects /\ ~(l.status = 204 /\ l.hdrs = <<>>)
               THEN R("stuck", FALSE, 0)
               ELSE R("done", TRUE, 0)
-         ELSE
-         CASE l.body = "none" -> R("done", TRUE, 0)
-           [] l.body = "cl" -> IF b >= GTot[i] THEN R("done", TRUE, 0) ELSE R("body", FALSE, 0)
-           [] l.body = "chunked" ->
-                IF b >= (IF "lastchunk" \in Defects THEN GLse[i] ELSE GTot[i])
-                THEN R("done", TRUE, 0) ELSE R("body", FALSE, 0)
-           [] l.body = "close" -> R("body", FALSE, 0)            \* ends with PeerClose
+         ELSE IF l.body = "none" THEN R("done", TRUE, 0)
+         ELSE IF l.body = "cl" THEN (IF b >= GTot[i] THEN R("done", TRUE, 0) ELSE R("body", FALSE, 0))
+         ELSE IF l.body = "chunked"
+              THEN (IF b >= (IF "lastchunk" \in Defects THEN GLse[i] ELSE GTot[i])
+                    THEN R("done", TRUE, 0) ELSE R("body", FALSE, 0))
+         ELSE R("body", FALSE, 0)                                \* "close": ends with PeerClose
     [] OTHER -> R(p, FALSE, 0)                                   \* "done" (left-over bytes), "stuck"
 
 -----------------------------------------------------------------------------
 EndLines(em) ==      \* the harness's lines once message m is delivered (and, if need be, closed)
-  (IF Side = "server" /\ em THEN <<Line("resp", m, 0, Tot)>> ELSE <<>>) \o <<Line("quiet", m, 0, Tot)>>
+  (IF side = "server" /\ em THEN <<Line("resp", m, 0, Tot)>> ELSE <<>>) \o <<Line("quiet", m, 0, Tot)>>
 
 (* the next read event carries the bytes [pos, b) of message m *)
 Read(b) ==
   /\ ~closed /\ b > pos
-  /\ (b = Tot) \/ (MaxCuts = NoBound \/ ncuts < MaxCuts)
-  /\ (Mode = "bytes") => (b = pos + 1)
+  /\ (b = Tot) \/ (plan.maxcuts = NoBound \/ ncuts < plan.maxcuts)
+  /\ (plan.mode = "bytes") => (b = pos + 1)
   /\ LET r == IF dead THEN R(ph, FALSE, 0) ELSE Exec(I, ph, pos, b)
          early == r.emit /\ b < Tot
          em == emitted[m] + (IF r.emit THEN 1 ELSE 0)
@@ -261,7 +297,7 @@ Read(b) ==
         /\ emitted' = [emitted EXCEPT ![m] = em]
         /\ errors' = errors + (IF r.err # 0 THEN 1 ELSE 0)
         /\ dead' = (dead \/ r.err # 0 \/ early)
-        /\ ncuts' = IF MaxCuts = NoBound \/ b = Tot THEN ncuts ELSE ncuts + 1
+        /\ ncuts' = IF plan.maxcuts = NoBound \/ b = Tot THEN ncuts ELSE ncuts + 1
         /\ hist' = Append(hist, <<m, b>>)
         /\ pred' = pred \o (IF r.emit THEN << <<"emit", m, b>> >> ELSE <<>>)
                         \o (IF r.err # 0 THEN << <<"error", m, b>> >> ELSE <<>>)
@@ -269,7 +305,7 @@ Read(b) ==
                 \o (IF r.emit THEN <<Line("emit", m, 0, b)>> ELSE <<>>)
                 \o (IF r.err # 0 THEN <<Line("error", m, r.err, b)>> ELSE <<>>)
                 \o (IF ended THEN EndLines(em > 0) ELSE <<>>))
-  /\ UNCHANGED <<msgs, m, closed>>
+  /\ UNCHANGED <<side, plan, msgs, m, closed>>
 
 (* the peer closes the connection behind a read-until-close response *)
 PeerClose ==
@@ -282,7 +318,7 @@ PeerClose ==
         /\ Emit(<<Line("peerclose", m, 0, pos)>>
                 \o (IF em THEN <<Line("emit", m, 0, pos)>> ELSE <<>>)
                 \o <<Line("quiet", m, 0, pos)>>)
-  /\ UNCHANGED <<msgs, m, pos, prev, errors, dead, ncuts, hist>>
+  /\ UNCHANGED <<side, plan, msgs, m, pos, prev, errors, dead, ncuts, hist>>
 
 (* the previous message was answered and keeps the connection alive: the peer
    starts the next one *)
@@ -290,9 +326,9 @@ NextMsg ==
   /\ m < Len(msgs) /\ pos = Tot /\ L.body # "close" /\ ~dead /\ emitted[m] = 1
   /\ m' = m + 1 /\ pos' = 0 /\ prev' = 0 /\ ph' = "line"
   /\ Emit(<<Line("next", m, 0, 0)>>)
-  /\ UNCHANGED <<msgs, closed, emitted, errors, dead, ncuts, hist, pred>>
+  /\ UNCHANGED <<side, plan, msgs, closed, emitted, errors, dead, ncuts, hist, pred>>
 
-Next == \/ \E b \in GTg[I] \cup {Tot} : Read(b)
+Next == \/ \E b \in TabTg[plan.mode][side][I] \cup {Tot} : Read(b)
         \/ PeerClose
         \/ NextMsg
 
@@ -313,5 +349,5 @@ NoSpuriousError == errors = 0
 DeliveredIsEmitted == FullyDelivered => emitted[m] = 1                                 \* emission is part of the delivering step
 PrevIsCut   == prev <= pos /\ (hist # <<>> => hist[Len(hist)] = <<m, pos>> \/ pos = 0)
 
-View == <<msgs, m, pos, prev, ph, closed, emitted, errors, dead, ncuts, P, bad>>
+View == <<side, plan, msgs, m, pos, prev, ph, closed, emitted, errors, dead, ncuts, P, bad>>
 =============================================================================
